@@ -33,6 +33,7 @@ TIME_POOLS = [
     lambda n: [-2.5 + 1.5 * i * i + i for i in range(n)],
     lambda n: [np.float64(3 * i - 7) for i in range(n)],
     lambda n: [10**6 + i for i in range(n)],
+    lambda n: [2**53 + 1 + 2 * i for i in range(n)],      # integer stamps that no float represents (e.g. nanosecond clocks)
 ]
 
 
@@ -321,6 +322,11 @@ def run(out: core.Outcome, pid: str) -> None:
 def _gen_course(rng: random.Random):
     dim = rng.choice([1, 2, 2, 3])
     periodic = rng.random() < 0.5
+    if periodic and dim > 1 and rng.random() < 0.5:
+        # a box that is periodic along some axes only: the metric wraps those axes and no others
+        periodic = [rng.random() < 0.5 for _ in range(dim)]
+        if all(periodic) or not any(periodic):
+            periodic[rng.randrange(dim)] = not periodic[0]
     L = rng.choice([8, 10, 16])
     nfr = rng.randint(1, 9)
     ndrop = rng.randint(0, 6)
@@ -340,7 +346,7 @@ def _gen_course(rng: random.Random):
             step = rng.choice([0.0, 0.05, 0.3, 1.0])
             q = [x + rng.uniform(-step, step) for x in p]
             if periodic:
-                q = [x % L for x in q]
+                q = [x % L if (periodic is True or periodic[a]) else x for a, x in enumerate(q)]
             rr = max(0.05, r * rng.uniform(0.9, 1.1)) if step else r
             new.append((q, rr))
             if u > 0.95:  # split
@@ -360,9 +366,9 @@ def _exact_metric(dim, L, periodic):
 
     def d2(a, b):
         s = Fraction(0)
-        for x, y in zip(a[0], b[0]):
+        for ax, (x, y) in enumerate(zip(a[0], b[0])):
             d = abs(Fraction(x) - Fraction(y))
-            if periodic:
+            if periodic is True or (periodic and periodic[ax]):
                 d = d % Lf
                 d = min(d, Lf - d)
             s += d * d
@@ -413,7 +419,7 @@ def _random_chunk(args):
         if _knife_edge(frames, d2, cut2):
             skipped += 1
             continue
-        grid = CartesianGrid([[0, L]] * dim, 8, periodic=True) if periodic else None
+        grid = CartesianGrid([[0, L]] * dim, 8, periodic=periodic) if periodic else None
         times = TIME_POOLS[sd % len(TIME_POOLS)](len(frames))
         res = run_impl(frames, times, method, grid, max_dist)
         tr = project(frames, method, d2=d2, cut2=cut2)
